@@ -318,6 +318,8 @@ def exec_case(case, log, stats):
     pristine = common.pristine("sim.c13t", "reference", model, case["probes"], case.get("perm"))
     initial = reference(case["world"], case["probes"], case.get("perm"))
     for idx, probe in enumerate(case["probes"]):
+        if "escape:RecursionError" in (live_out[idx][0], same_process[idx][0], pristine[idx][0]):
+            continue
         if live_out[idx] != same_process[idx] or live_out[idx] != pristine[idx]:
             return {
                 "invariant": "stale_after_concurrent_reconfiguration",
